@@ -1,5 +1,12 @@
 """Per-property MANIFEST entries (level, technique, trusted base)."""
 CHECKS = {
+ 'C01': dict(level='translation_validation', engine='E4 verilog interpreter + E2 catalogue + dutgen',
+   technique='translation validation by lockstep co-execution: real simulator vs. emitted Verilog run by the /verif Verilog-subset interpreter, outputs compared every cycle',
+   text='Each generated design (unit wrappers of every catalogue block emitted three ways, sequential blocks, parameter-boundary and wide-control classes, random compositions with '
+        'hierarchy and register feedback, hand-written bodies) is validated individually: the py4hw simulator and the interpreter of the emitted text run in lockstep from power-up and all '
+        'top-level outputs are compared at power-up, after every input change and after every edge. Held = no disagreement on the programs/comparisons counted in the evidence.',
+   note='Trusted: the E4 reading of IEEE 1364-2005 (DESIGN.md Appendix A, self-tested at setup), zero power-up for uninitialised Verilog state; x sources, multi-clock and inout designs are skipped as indeterminate.',
+   ref='DESIGN.md section 4 C01'),
  'C07': dict(level='exploration', engine='E2 catalogue + reference models',
    technique='runtime reference-model monitor: real blocks simulated under exhaustive/boundary/random inputs, outputs judged by independent integer references',
    text='Every arithmetic block of the catalogue is executed in the real simulator for every legal width/parameter configuration of the grid; '
